@@ -843,7 +843,7 @@ impl Part for E3b {
             n += 1;
             out.transitions += sc.bodies.len() as u64;
             if r.diverged {
-                out.fail(format!("{}: replay divergence (choice out of range while replaying prefix {:?}) - nondeterminism outside the scheduler's control (machinery)", sc.name, prefix));
+                out.fail(format!("{}: replay divergence (choice out of range while replaying prefix {:?}) - the set of scheduling points changed between two runs of the same prefix: behaviour depends on earlier calls (hidden process-wide state), or on nondeterminism the harness does not own", sc.name, prefix));
                 break;
             }
             if r.trace.is_empty() {
@@ -886,7 +886,7 @@ impl Part for E3b {
                 let r2 = run_schedule(&r.choices, &sc.bodies);
                 replay_checks += 1;
                 if r2.trace != r.trace || r2.outs != r.outs || r2.choices != r.choices {
-                    out.fail(format!("{}: replaying schedule {:?} gave a different trace or outputs - uncontrolled nondeterminism (machinery)", sc.name, r.choices));
+                    out.fail(format!("{}: replaying schedule {:?} gave a different trace or different outputs: the library's behaviour depends on something besides the schedule and the inputs - hidden process-wide state (the subject of C18), or nondeterminism the harness does not own", sc.name, r.choices));
                     break;
                 }
             }
